@@ -278,8 +278,8 @@ ctl('d1-pose-guard-removed', 'C05', 'D1', RT,
 		return nil
 	}
 
-	entity.SetPose(""",
-    """	entity.SetPose(""", 'HandleEntityUpdatePose')
+	if update.Pose == nil {""",
+    """	if update.Pose == nil {""", 'HandleEntityUpdatePose')
 ctl('e4-components-not-dropped', 'C12', 'E4', RT,
     """	session.GetEntityComponents().DeleteByEntityID(entity.ID)
 	session.RemoveEntity(entity)
@@ -539,6 +539,147 @@ ctl('j6-recipient-resolution', 'C14', 'J6', SE,
 		if !ok {
 			participants = append(participants, p)
 		}""", 'GetParticipantsByIDs')
+
+
+DG = 'modules/dagaz/dagaz.go'
+# ---- error discipline / nil sub-messages
+ctl('err-update-result-dropped', 'C12', 'ERR', RT,
+    """	if err := session.GetEntityComponents().Update(&entityComponent); err != nil {
+		return nil
+	}
+""",
+    """	session.GetEntityComponents().Update(&entityComponent)
+""", 'HandleEntityComponentUpdate', 'the defect fixed by dece733, re-introduced')
+ctl('g1-pose-nil-check-removed', 'C11', 'G1', RT,
+    """	if update.Pose == nil {
+		return nil
+	}
+""", "", 'HandleEntityUpdatePose', 'the defect fixed by daeaa72, re-introduced')
+ctl('g1-entity-add-pose-unchecked', 'C08', 'G1', RT,
+    """	if req.Pose != nil {
+		entity.SetPose(models.Pose{""",
+    """	if req.Persist || req.Pose != nil {
+		entity.SetPose(models.Pose{""", 'HandleEntityAdd')
+ctl('g1-ray-direct-field', 'C08', 'G1', 'modules/dagaz/math.go',
+    """	from := NewVector3fFromProtobuf(protoRay.GetFrom())""",
+    """	from := Vector3f{x: protoRay.From.X, y: protoRay.From.Y, z: protoRay.From.Z}""", 'NewRayFromProtobuf')
+# ---- custom messages
+ctl('h1-limit-off-by-one', 'C14', 'H1', RT,
+    """	if len(customMessage.Body) > customMessageMaxSize {""",
+    """	if len(customMessage.Body) >= customMessageMaxSize {""", 'HandleCustomMessage')
+ctl('h1-limit-constant-changed', 'C14', 'H1', RT,
+    """const customMessageMaxSize = 10240""",
+    """const customMessageMaxSize = 10 * 1000""", 'HandleCustomMessage')
+ctl('h4-body-truncated', 'C14', 'H4', RT,
+    """			Body:            customMessage.Body,""",
+    """			Body:            customMessage.Body[:len(customMessage.Body)/2*2],""", 'HandleCustomMessage:body')
+ctl('h4-wrong-stamp', 'C14', 'H4', RT,
+    """			ParticipantId:   participant.ID,
+			Body:""",
+    """			ParticipantId:   session.ID,
+			Body:""", 'HandleCustomMessage:stamp')
+ctl('h4-targeted-goes-to-all', 'C14', 'H4', RT,
+    """			session.BroadcastTo(participant, &customMessageBroadcast, customMessage.ParticipantIds...)
+			return""",
+    """			session.BroadcastTo(participant, &customMessageBroadcast, customMessage.ParticipantIds...)""", 'HandleCustomMessage')
+# ---- signed latency start
+ctl('h2-range-widened', 'C18', 'H2', RT,
+    """	if req.IterationCount < 3 || req.IterationCount > 50 {""",
+    """	if req.IterationCount < 3 || req.IterationCount > 500 {""", 'HandleSignedLatency:rounds')
+ctl('h2-wallet-check-removed', 'C18', 'H2', RT,
+    """	if req.WalletAddress == "" {
+		respond.Send(&hagallpb.ErrorResponse{
+			Type:      hagallpb.MsgType_MSG_TYPE_ERROR_RESPONSE,
+			Timestamp: timestamppb.Now(),
+			RequestId: req.RequestId,
+			Code:      hagallpb.ErrorCode_ERROR_CODE_BAD_REQUEST,
+		})
+		return nil
+
+	}
+""", "", 'HandleSignedLatency:wallet')
+ctl('i2-session-id-instead-of-uuid', 'C18', 'I2', RT,
+    """		h.currentSession.SessionUUID, h.clientID, req.WalletAddress)""",
+    """		h.Sessions.GlobalSessionID(h.currentSession.ID), h.clientID, req.WalletAddress)""", 'HandleSignedLatency:bindings')
+# ---- entity actions / assets
+ctl('h3-comparison-reversed', 'C16', 'H3', VJ,
+    """	if ok && entityAction.Timestamp.AsTime().Before(latestEntityAction.Timestamp.AsTime()) {""",
+    """	if ok && entityAction.Timestamp.AsTime().After(latestEntityAction.Timestamp.AsTime()) {""", 'handleSetEntityAction')
+ctl('h3-equal-refused', 'C16', 'H3', VJ,
+    """	if ok && entityAction.Timestamp.AsTime().Before(latestEntityAction.Timestamp.AsTime()) {""",
+    """	if ok && !entityAction.Timestamp.AsTime().After(latestEntityAction.Timestamp.AsTime()) {""", 'handleSetEntityAction')
+ctl('h3-lookup-by-name-only', 'C16', 'H3', VJ,
+    """	latestEntityAction, ok := m.state.EntityAction(entityAction.EntityId, entityAction.Name)""",
+    """	latestEntityAction, ok := m.state.EntityAction(req.RequestId, entityAction.Name)""", 'handleSetEntityAction:lookup-key')
+ctl('s-actions-keyed-by-name-only', 'C16', 'S-Actions', 'modules/vikja/state.go',
+    """	entityActions, ok := s.entityActions[ea.EntityId]
+	if !ok {
+		entityActions = make(map[string]*vikjapb.EntityAction)
+		s.entityActions[ea.EntityId] = entityActions
+	}""",
+    """	entityActions, ok := s.entityActions[0]
+	if !ok {
+		entityActions = make(map[string]*vikjapb.EntityAction)
+		s.entityActions[0] = entityActions
+	}""", 'SetEntityAction')
+ctl('s-assets-keyed-by-instance', 'C16', 'S-Assets', 'modules/odal/state.go',
+    """	s.assetInstances[ai.EntityId] = ai""",
+    """	s.assetInstances[ai.Id] = ai""", 'SetAssetInstance')
+ctl('d5-asset-id-from-request', 'C16', 'D5', OD,
+    """		Id:            m.state.NewAssetInstanceID(),""",
+    """		Id:            req.RequestId,""", 'handleAssetInstanceAdd')
+# ---- snapshot
+ctl('c7-snapshot-before-registration', 'C01', 'C7', RT,
+    """	session.AddParticipant(participant)
+	h.stopFrameHandling = session.HandleFrame(handleFrame)
+""",
+    """	h.stopFrameHandling = session.HandleFrame(handleFrame)
+	defer session.AddParticipant(participant)
+""", 'registered-before-snapshot')
+ctl('c7-snapshot-without-components', 'C01', 'C7', RT,
+    """			EntityComponents: session.GetEntityComponents().ListAll(),""",
+    """			EntityComponents: session.GetEntityComponents().List(1),""", 'snapshot-content')
+ctl('c7-entity-serialiser-drops-owner', 'C01', 'C7', EN,
+    """		Id:            e.ID,
+		ParticipantId: e.ParticipantID,""",
+    """		Id:            e.ID,
+		ParticipantId: e.ID,""", 'ToProtobuf:fields')
+ctl('c7-module-state-empty', 'C16', 'C7', OD,
+    """		AssetInstances: m.state.AssetInstances(),""",
+    """		AssetInstances: nil,""", 'handleParticipantJoin')
+ctl('c11-relay-requested-pose-not-stored', 'C11', 'C11-pose', RT,
+    """			Pose:            entity.Pose().ToProtobuf(),""",
+    """			Pose:            update.Pose,""", 'HandleEntityUpdatePose')
+# ---- module init
+ctl('j4-grid-reset-on-join', 'C20', 'J4', DG,
+    """	m.state = state.(*State)
+}""",
+    """	m.state = state.(*State)
+
+	m.state.SpatialPartition = NewRegularGrid(1, 1, 2)
+}""", 'dagaz.(*Module).Init', 'the defect fixed in dagaz Init, re-introduced')
+ctl('j4-state-replaced-on-join', 'C16', 'J4', VJ,
+    """	state, ok := s.ModuleState(m.Name())
+	if !ok {
+		state = &State{}
+		s.SetModuleState(m.Name(), state)
+	}""",
+    """	state, ok := s.ModuleState(m.Name())
+	if !ok || p.ID == 1 {
+		state = &State{}
+		s.SetModuleState(m.Name(), state)
+	}""", 'vikja.(*Module).Init')
+ctl('j3-module-keeps-old-session', 'C03', 'J3', OD,
+    """func (m *Module) Init(s *models.Session, p *models.Participant) {
+	m.currentSession = s
+	m.currentParticipant = p
+""",
+    """func (m *Module) Init(s *models.Session, p *models.Participant) {
+	if m.currentSession == nil {
+		m.currentSession = s
+	}
+	m.currentParticipant = p
+""", 'odal.(*Module).Init')
 
 os.makedirs(OUT, exist_ok=True)
 bad = 0
